@@ -291,14 +291,17 @@ C18V(r) ==
 \* r.notes = start times (us, BigNat) of the chosen track's notes; r.S / r.E the interval bounds in us as the
 \* property defines them (tick bound = un-hinted tempo-map time, omitted start = 0, omitted end = last note
 \* end); r.num / r.den the returned float as an exact ratio.
+\* r.eomit: the end bound was omitted, in which case the interval ends at the track's last note end, i.e. the
+\* maximum of the notes' end times r.ends (computed here, not read from the library's own attribute)
 C16V(r) ==
   IF r.track # "with-notes" THEN
     FirstFail(<< <<"absent-or-note-less-track-raises-ValueError", r.raised = "ValueError">> >>)
-  ELSE IF Leq(r.E, r.S) THEN
+  ELSE LET E == IF r.eomit THEN MaxBig(r.ends) ELSE r.E IN
+  IF Leq(E, r.S) THEN
     FirstFail(<< <<"non-positive-interval-raises-ValueError", r.raised = "ValueError">> >>)
   ELSE
-    LET c == Cardinality({ k \in DOMAIN r.notes : Leq(r.S, r.notes[k]) /\ Leq(r.notes[k], r.E) })
-        D == Sub(r.E, r.S)
+    LET c == Cardinality({ k \in DOMAIN r.notes : Leq(r.S, r.notes[k]) /\ Leq(r.notes[k], E) })
+        D == Sub(E, r.S)
         target == Mul(FromNat(c * 1000000), r.den)          \* exact rate = target / (D * den) per second
     IN FirstFail(<<
       <<"positive-interval-returns-a-rate", r.raised = "">>,
